@@ -190,14 +190,14 @@ func Run(cfg Config, root func()) *Result {
 		cfg.PCTSteps = 2000
 	}
 	k := &Kernel{
-		cfg:      cfg,
-		sched:    NewRng(Derive(cfg.Seed, 1)),
-		drift:    NewRng(Derive(cfg.Seed, 2)),
-		misc:     NewRng(Derive(cfg.Seed, 3)),
-		done:     make(chan struct{}, 1),
-		now:      cfg.StartNanos,
-		hash:     1469598103934665603,
-		pctLow:   -1,
+		cfg:    cfg,
+		sched:  NewRng(Derive(cfg.Seed, 1)),
+		drift:  NewRng(Derive(cfg.Seed, 2)),
+		misc:   NewRng(Derive(cfg.Seed, 3)),
+		done:   make(chan struct{}, 1),
+		now:    cfg.StartNanos,
+		hash:   1469598103934665603,
+		pctLow: -1,
 	}
 	if cfg.TraceRing > 0 {
 		k.ring = make([]Event, cfg.TraceRing)
@@ -653,6 +653,27 @@ func Join(t *Task) {
 
 //go:norace
 func Done(t *Task) bool { return t.state == stDone }
+
+// WaitIdle returns once no other task is runnable (every other task is done
+// or blocked on a lock, channel or timer): kernel-level quiescence.
+//
+//go:norace
+func WaitIdle() {
+	k := K
+	for {
+		others := false
+		for _, t := range k.tasks {
+			if t != k.cur && t.state == stRunnable {
+				others = true
+				break
+			}
+		}
+		if !others {
+			return
+		}
+		Gosched()
+	}
+}
 
 // Now returns simulated nanoseconds since the simulation epoch.
 //
